@@ -233,8 +233,9 @@ def _vectors(ctx):
         if jdump(v) not in seen:
             seen.add(jdump(v))
             uniq.append(v)
-    uniq = uniq[:60]
-    _g2, _t2, bad2 = _run_and_validate(ctx, uniq, "b", slow=3)
+    uniq = uniq[:40]
+    # three runs of each: a failure that depends on a random draw of the back-off must get its chance
+    _g2, _t2, bad2 = _run_and_validate(ctx, uniq * 3, "b", slow=3)
     confirmed = {}
     for r, idx, sig in bad2:
         confirmed[jdump(sig)] = (r, idx, sig)
